@@ -4,6 +4,7 @@ package main
 // writer (OB).  See DESIGN.md §2.1, §2.4.
 
 import (
+	"unicode"
 	"strconv"
 	"bufio"
 	"encoding/json"
@@ -491,6 +492,42 @@ func (c *Ctx) loadKnown() {
 // nothing used in this run -- its old key no longer exists in the program --
 // provided the row's machine-checked anchor, if it has one, holds at the new
 // place. Each row is used once; the match is noted in the evidence.
+// canonicalConstruct: the text of an expression with the names of its variables blanked: identifiers
+// that are not selected (not preceded by a dot) and not called. Field and method names, literals and
+// operators stay. `stack.elements[stack_start+i]` and `s.elements[start+k]` are the same construct.
+func canonicalConstruct(s string) string {
+	var out strings.Builder
+	rs := []rune(s)
+	isIdentStart := func(r rune) bool { return r == '_' || unicode.IsLetter(r) }
+	isIdent := func(r rune) bool { return r == '_' || unicode.IsLetter(r) || unicode.IsDigit(r) }
+	for i := 0; i < len(rs); {
+		if !isIdentStart(rs[i]) {
+			out.WriteRune(rs[i])
+			i++
+			continue
+		}
+		j := i
+		for j < len(rs) && isIdent(rs[j]) {
+			j++
+		}
+		word := string(rs[i:j])
+		selected := i > 0 && rs[i-1] == '.'
+		called := j < len(rs) && rs[j] == '('
+		keep := selected || called
+		switch word {
+		case "slice", "index", "len", "cap", "nil", "true", "false", "assert", "panic", "panicOn", "result", "of", "invoke":
+			keep = true
+		}
+		if keep {
+			out.WriteString(word)
+		} else {
+			out.WriteString("_")
+		}
+		i = j
+	}
+	return out.String()
+}
+
 func (c *Ctx) rematchMoved() {
 	strip := func(k string) string {
 		if i := strings.LastIndex(k, "#"); i > 0 {
@@ -539,7 +576,10 @@ func (c *Ctx) rematchMoved() {
 				continue
 			}
 			row := c.table[k]
-			if row.Rule+"|"+strip(row.Construct) != want {
+			sameText := row.Rule+"|"+strip(row.Construct) == want
+			// or: the same function, and the same expression up to the names of its variables (a local was renamed)
+			renamed := row.Rule == o.Rule && row.Fn == o.Fn && canonicalConstruct(strip(row.Construct)) == canonicalConstruct(strip(o.Construct))
+			if !sameText && !renamed {
 				continue
 			}
 			if holds, _ := c.anchorHolds(row, o, o.tok); !holds {
